@@ -53,6 +53,9 @@ type Config struct {
 	Backend    string `json:"backend"`             // simdb | memdb | leveldb | prefix-memdb | prefix-leveldb | prefix-simdb
 	AcctLDB    bool   `json:"acct_leveldb,omitempty"`
 	AsyncPrune bool   `json:"async_prune,omitempty"`
+	// QuantumUs: simulated microseconds per scheduling decision (concurrent runs; 0 = the
+	// clock only advances when every task sleeps or waits).
+	QuantumUs int `json:"quantum_us,omitempty"`
 }
 
 // Step op codes.
